@@ -412,6 +412,12 @@ def corr(ctx, suite, n, extra_args=(), driver_suite=None, timeout=3000):
         got = ctx.run_driver(drv, "suite %s\n" % (driver_suite or suite) + "\n".join(ins) + "\n")
         for k, (i, l) in enumerate(obs):
             g = got[k] if k < len(got) else "<missing>"
+            if l == "overflow":
+                # LegacyDec's 2^256*10^18 range assertion fired in the implementation; the model is unbounded there.
+                # The harness sends `> undo` next, so both sides continue from the same (unchanged) state.
+                res.setdefault("skipped_overflow", 0)
+                res["skipped_overflow"] += 1
+                continue
             if g != l:
                 # context: the ops since the last reset
                 j = i
